@@ -286,7 +286,8 @@ def resolve_unwindset(h, full_name, snap, target, logdir):
     items = []
     missing = []
     for k, n in h['unwindset'].items():
-        found = [lid for pk, lid in loops.items() if pk == k or (k.endswith('#*') and pk.rsplit('#', 1)[0] == k[:-2])]
+        found = [lid for pk, lid in loops.items() if pk == k or (k.endswith('#*') and pk.rsplit('#', 1)[0] == k[:-2])
+                 or (k.endswith('::*') and pk.startswith(k[:-1]))]
         if not found:
             missing.append(k)
         for lid in found:
